@@ -215,6 +215,25 @@ Definition op_square (S : Space) : Oper S S :=                   (* PowerOperato
   {| op_app := fun x => smul S x x; op_dadj := fun x y => smul S (sscal S (of_Z 2) x) y;
      op_linear := false |}.
 
+(* ---- product of two spaces (ProductSpace(S1, S2), default weighting) and
+   SeparableSum(f1, f2) = f1 o P1 + f2 o P2 with the component projections:
+   value sum_i f_i(x_i), gradient (grad f1(x1), grad f2(x2)) ---- *)
+Definition sprod (sqrtf : T -> T) (S1 S2 : Space) : Space :=
+  {| car := (car S1 * car S2)%type;
+     sadd := fun x y => (sadd S1 (fst x) (fst y), sadd S2 (snd x) (snd y));
+     sscal := fun a x => (sscal S1 a (fst x), sscal S2 a (snd x));
+     szero := (szero S1, szero S2);
+     sinner := fun x y => sinner S1 (fst x) (fst y) + sinner S2 (snd x) (snd y);
+     snorm := fun x => sqrtf (sinner S1 (fst x) (fst x) + sinner S2 (snd x) (snd x));
+     smul := fun x y => (smul S1 (fst x) (fst y), smul S2 (snd x) (snd y)) |}.
+Definition op_fst (sqrtf : T -> T) (S1 S2 : Space) : Oper (sprod sqrtf S1 S2) S1 :=
+  @mkOper (sprod sqrtf S1 S2) S1 (fun x => fst x) (fun _ y => (y, szero S2)) true.
+Definition op_snd (sqrtf : T -> T) (S1 S2 : Space) : Oper (sprod sqrtf S1 S2) S2 :=
+  @mkOper (sprod sqrtf S1 S2) S2 (fun x => snd x) (fun _ y => (szero S1, y)) true.
+Definition f_sepsum (sqrtf : T -> T) {S1 S2} (f1 : fexpr S1) (f2 : fexpr S2)
+  : fexpr (sprod sqrtf S1 S2) :=
+  FSum (FComp f1 (op_fst sqrtf S1 S2)) (FComp f2 (op_snd sqrtf S1 S2)).
+
 (* ---- the arithmetic overloads of class Functional ---- *)
 (* f.translated(t): nested translations are merged in __init__ *)
 Definition mk_translated {S} (e : fexpr S) : car S -> fexpr S :=
